@@ -65,7 +65,20 @@ func coreSenderScenario(c coreSenderCfg, bound int) *Scenario {
 					}
 				}))
 			}
-			if c.cancel {
+			total := c.window
+			for _, ps := range c.pieces {
+				for _, p := range ps {
+					total += p
+				}
+			}
+			if c.cancel && total < c.size {
+				// not enough credit: the canceller is a last resort (fires when nothing else can run)
+				w.GoLow("fault:cancel", func() {
+					w.WaitUntil("cancel", func() bool { return true })
+					w.Log(Event{Actor: "canceller", Op: "cancel"})
+					cancel()
+				})
+			} else if c.cancel {
 				ths = append(ths, w.Go("canceller", true, func() {
 					w.Log(Event{Actor: "canceller", Op: "cancel"})
 					cancel()
@@ -115,6 +128,8 @@ func coreSenderScenario(c coreSenderCfg, bound int) *Scenario {
 				bad("window-respected", "core:sent-more-than-credit", fmt.Sprintf("%d bytes handed to sendFunc with only %d credit ever available", len(sent), total))
 			}
 			switch {
+			case res.OK() && total < c.size:
+				bad("window-respected", "core:sent-without-credit", fmt.Sprintf("send returned nil although only %d credit was ever available for %d bytes", total, c.size))
 			case res.OK():
 				if len(sent) != c.size {
 					bad("send-nil-iff-all-sent", "core:nil-but-incomplete", fmt.Sprintf("send returned nil after %d of %d bytes", len(sent), c.size))
@@ -430,6 +445,23 @@ func c05Scenarios(tier string) []*Scenario {
 			}
 		}
 	}
+	// core sender with LESS credit than the message needs: the sender must stop exactly at the
+	// credit it was given (and is then released by cancellation)
+	for _, c := range []coreSenderCfg{
+		{size: 32769, window: 16384, pieces: [][]int{{1}}, cancel: true},
+		{size: 32769, window: 1, pieces: [][]int{{16384}}, cancel: true},
+		{size: 16385, window: 16384, pieces: [][]int{}, cancel: true},
+		{size: 49153, window: 16384, pieces: [][]int{{16384}, {1}}, cancel: true},
+	} {
+		c.unbound = false
+		b := 3
+		if thorough {
+			b = 4
+		}
+		sc := coreSenderScenario(c, b)
+		sc.Name = strings.Replace(sc.Name, "c05/core/sender/", "c05/core/sender-short-credit/", 1)
+		scs = append(scs, sc)
+	}
 	// core receiver
 	for _, fr := range [][]int{{10}, {10, 20}, {10, 20, 30}, {16384, 16384, 16384, 16384, 1}} {
 		for _, closer := range []string{"", "close", "cancel"} {
@@ -479,7 +511,8 @@ func c05TunnelScenarios(tier string) []*Scenario {
 		for _, t := range tls {
 			cfg, t := cfg, t
 			bound := 1
-			if thorough {
+			if thorough || (cfg.Cap == 1 && (t.name == "CS+SS" || t.name == "Bx2w")) {
+				// back-pressure in both directions at once needs two deviations to set up
 				bound = 2
 			}
 			wls := t.wls()
@@ -488,7 +521,7 @@ func c05TunnelScenarios(tier string) []*Scenario {
 				ids = append(ids, wl.Call.ID)
 			}
 			scs = append(scs, &Scenario{
-				Name: fmt.Sprintf("c05/tunnel/%s/%s", cfg, t.name), Prop: "C05",
+				Name: fmt.Sprintf("c05/tunnel/%s/%s", cfg, t.name), Prop: "C05", Heavy: bound >= 2,
 				Desc: fmt.Sprintf("flow-controlled tunnel %s carrying %s (several windows of data per stream); every application read, frame delivery and window update is a scheduling point; <= %d deviations; credit conservation is checked at every idle quiescent point", cfg, t.name, bound),
 				Opt:  Options{Level: "io", Bound: bound},
 				Run: func(w *World) {
